@@ -200,9 +200,9 @@ func c03ReserveShape(w *core.World, id string) []core.Result {
 	var out []core.Result
 	want := map[string]int{
 		"$2": 1, // limit
-		"(*state.NodePoolState).nodeCounts($0, $1)#0":                        -1,
-		"(*state.NodePoolState).nodeCounts($0, $1)#1":                        -1,
-		"(*state.NodePoolState).nodeCounts($0, $1)#2":                        -1,
+		"(*state.NodePoolState).nodeCounts($0, $1)#0":                   -1,
+		"(*state.NodePoolState).nodeCounts($0, $1)#1":                   -1,
+		"(*state.NodePoolState).nodeCounts($0, $1)#2":                   -1,
 		"(*sync/atomic.Int64).Load($0.nodePoolNameToNodePoolLimit[$1])": -1,
 	}
 	// (a) find `remaining < 0` and check the linear form of remaining; its true edge returns the constant 0
